@@ -343,6 +343,37 @@ structure SimSpinImpl where
   tryDelegate : String
   unlockDelegate : String
   sameMutex : Bool
+  /-- `p_spinlock_new` stores a mutex of its own (`ret->mutex = p_mutex_new ()`) into every object:
+      two spinlocks never share their native mutex -/
+  freshMutex : Bool
+  /-- `p_spinlock_free` is `p_mutex_free (spinlock->mutex); p_free (spinlock);` -/
+  freeReleases : Bool
   deriving Repr, Inhabited
+
+/-- `patomic-sim.c`: life cycle of the one mutex that brackets every operation -/
+structure SimInitImpl where
+  /-- declared `static PMutex *pp_atomic_mutex [= NULL];` at file scope: one per process, not per thread;
+      assigned nowhere but in the two functions below -/
+  mutexStatic : Bool
+  /-- `p_atomic_thread_init` is `if (M == NULL) M = p_mutex_new ();` -/
+  initCreatesWhenNull : Bool
+  /-- `p_atomic_thread_shutdown` is `if (M != NULL) { p_mutex_free (M); M = NULL; }` -/
+  shutdownFreesAndClears : Bool
+  deriving Repr, Inhabited
+
+inductive InitCall | init | shutdown
+  deriving DecidableEq, Repr
+
+/-- the pointer `pp_atomic_mutex` (`none` = NULL, `some k` = the k-th mutex ever created) after one call of
+    `p_atomic_thread_init` / `_shutdown`; `fresh` is the identity `p_mutex_new` would hand out.
+    A record whose shape was not recognised leaves the pointer alone (the translator has then reported it). -/
+def simInitStep (i : SimInitImpl) (fresh : Nat) (m : Option Nat) : InitCall → Option Nat
+  | .init => if i.initCreatesWhenNull then (match m with | none => some fresh | some k => some k) else m
+  | .shutdown => if i.shutdownFreesAndClears then none else m
+
+/-- native `pthread_mutex_lock` / `_unlock` calls one simulated operation makes: the bracket calls reach the
+    native mutex only when the global mutex exists (`p_mutex_lock (NULL)` returns FALSE at its NULL guard) -/
+def SimFn.nativeCalls (f : SimFn) (mutexLive : Bool) : Nat × Nat :=
+  if mutexLive then ((if f.firstIsLock then 1 else 0) + f.innerMutexCalls, if f.lastIsUnlock then 1 else 0) else (0, 0)
 
 end PV.Atomics
